@@ -95,7 +95,7 @@ int main(void)
     size_t cap = 1 << 22;
     char *line = (char *)malloc(cap), *w[8];
     logmath_t *lm;
-    err_set_loglevel(ERR_FATAL);
+    if (getenv("H_C05_LOG") == NULL) err_set_loglevel(ERR_FATAL);
     lm = logmath_init(1.0001, 0, 0);
     while (fgets(line, (int)cap, stdin)) {
         int n = vf_words(line, w, 8);
